@@ -370,9 +370,17 @@ def twin_annotations(rng, sd, ac, st, cs):
 
 
 def twin_const_array(rng, sd, ac, st, cs):
+    ac = copy.deepcopy(ac)
     ac2 = copy.deepcopy(ac)
     n = 0
     for w in ac2["wings"].values():
+        if n == 0 and not isinstance(w.get("ll_offset"), str):
+            # the lifting-line offset "is defined the same as twist": a number or a table
+            off_ = float(w.get("ll_offset", 0.04))
+            w_base = ac["wings"][[k_ for k_, v_ in ac2["wings"].items() if v_ is w][0]]
+            w_base["ll_offset"] = off_
+            w["ll_offset"] = [[0.0, off_], [1.0, off_]]
+            n += 1
         for k in ("chord", "sweep", "dihedral", "twist"):
             if k == "sweep" and w.get("ll_offset") == "kuchemann":
                 continue          # documented: Kuchemann's offset is only applied when the sweep is given as a constant (warning otherwise)
